@@ -178,6 +178,43 @@ def h_object_state(env, slmode):
         env.equal("normalised_feature_%d" % i, y1[0, i, 0], y2[0, i, 0])
 
 
+def h_object_state_evaluator(env, kind):
+    """the C-backed kernel evaluators inside a saved model (RBFEvaluator and its subclasses AntisymRBFEvaluator / SpinRBFEvaluator) after
+    the object-state round trip joblib / yaml perform: same type, and the reloaded object evaluates to the same value and gradient as the
+    original on a symbolic sample (both through the interpreted model_utils.c, as in C11) - in particular it still calls its own C kernel"""
+    xe, K = env.m.xc_evaluator, env.m.kernels
+    n, nctrl = 1, 2
+    al = env.arr("alpha", (nctrl,), lo="-4", hi="4")
+    c = env.par("c", "pos", hi="8")
+    if kind == "RBFEvaluator":
+        nf = 2
+        X1, Xc = env.arr("X1", (n, nf), lo="-4", hi="4"), env.arr("Xc", (nctrl, nf), lo="-4", hi="4")
+        kern = K.DiffConstantKernel(c) * K.DiffRBF(length_scale=env.arr("l", (nf,), "pos", lo="1/8", hi="8"))
+        ev, shp = xe.RBFEvaluator(kern, Xc.copy(), al.copy()), (n, nf)
+    elif kind == "AntisymRBFEvaluator":
+        nf = 3
+        X1, Xc = env.arr("X1", (n, nf), lo="-4", hi="4"), env.arr("Xc", (nctrl, nf), lo="-4", hi="4")
+        kern = K.DiffConstantKernel(c) * K.DiffAntisymRBF(length_scale=env.arr("l", (nf - 1,), "pos", lo="1/8", hi="8"))
+        ev, shp = xe.AntisymRBFEvaluator(kern, Xc.copy(), al.copy()), (n, nf)
+    else:
+        nf = 2
+        X1, Xc = env.arr("X1", (2, n, nf), lo="-4", hi="4"), env.arr("Xc", (2, nctrl, nf), lo="-4", hi="4")
+        kern = K.DiffConstantKernel(c) * K.DiffRBF(length_scale=env.arr("l", (nf,), "pos", lo="1/8", hi="8"))
+        ev, shp = xe.SpinRBFEvaluator(kern, Xc.copy(), al.copy()), (2, n, nf)
+    ok, ev2 = env.attempt("state_roundtrip_returns", lambda: _object_state_roundtrip(env, ev))
+    if not ok:
+        return
+    env.check("type", type(ev2) is type(ev), "%s vs %s" % (type(ev2).__name__, type(ev).__name__))
+    r1, d1, r2, d2 = env.zeros((n,)), env.zeros(shp), env.zeros((n,)), env.zeros(shp)
+    ev(X1.copy(), r1, d1)
+    ok, _ = env.attempt("reloaded_evaluator_call_returns", lambda: ev2(X1.copy(), r2, d2))
+    if not ok:
+        return
+    env.equal("reloaded_value", r2[0], r1[0])
+    for k, (a, b) in enumerate(zip(d2.ravel(), d1.ravel())):
+        env.equal("reloaded_gradient_%d" % k, a, b)
+
+
 def h_unknown_code(env):
     td = env.m.td
     for code in ("", "Omega ", "u", "NOPE", None, 0):
@@ -340,6 +377,8 @@ def tasks(tier):
     out.append(Task("featlist_roundtrip/yaml/3maps", h_featlist_roundtrip, dict(classes=names[3:6], yaml_layer=True), max_paths=600))
     for slmode in (("npa", "ns") if tier == "quick" else ("npa", "nst", "np", "ns")):
         out.append(Task("object_state/FeatNormalizerList/%s" % slmode, h_object_state, dict(slmode=slmode), max_paths=256))
+    for kind in ("RBFEvaluator", "AntisymRBFEvaluator", "SpinRBFEvaluator"):
+        out.append(Task("object_state/%s" % kind, h_object_state_evaluator, dict(kind=kind), mods="kernels", max_paths=64))
     out.append(Task("unknown_code", h_unknown_code, {}))
     out.append(Task("splineset", h_splineset, {}))
     out.append(Task("to_dict/MappedDFTKernel", h_serializable_contract, dict(modname="xc_evaluator", clsname="MappedDFTKernel")))
@@ -353,6 +392,10 @@ def tasks(tier):
 def prepare(tier):
     m = sym_mods()
     m.td, m.xc_evaluator, m.xc_evaluator2, m.baselines
+    from . import c11
+    mk = sym_mods("kernels")
+    mk.kernels, mk.xc_evaluator
+    c11._install()
 
 
 def replay(task, rec):
@@ -372,7 +415,7 @@ META = dict(
     explanation="symbolic execution of as_dict/from_dict/to_dict of the real classes with symbolic parameters; "
                 "z3 decides that original and reloaded object produce the identical term; CrossHair (z3) on the "
                 "real from_dict/load_cider_model dispatch with symbolic strings; concrete YAML/joblib file round trip as validation",
-    functions=['ciderpress/dft/feat_normalizer.py: FeatNormalizerList / normaliser classes through the object-state round trip (__getstate__/__setstate__/__dict__), get_normalized_feature_vector (object_state/*)', "ciderpress/dft/transform_data.py: <every class in ALL_CLASSES>.as_dict/from_dict, FeatureNormalizer.from_dict, FeatureList.as_dict/from_dict/dump/load",
+    functions=['ciderpress/dft/xc_evaluator.py: RBFEvaluator / AntisymRBFEvaluator / SpinRBFEvaluator through the object-state round trip, evaluated through model_utils.c (object_state/*Evaluator)', 'ciderpress/dft/feat_normalizer.py: FeatNormalizerList / normaliser classes through the object-state round trip (__getstate__/__setstate__/__dict__), get_normalized_feature_vector (object_state/*)', "ciderpress/dft/transform_data.py: <every class in ALL_CLASSES>.as_dict/from_dict, FeatureNormalizer.from_dict, FeatureList.as_dict/from_dict/dump/load",
                "ciderpress/dft/xc_evaluator.py: SplineSetEvaluator.to_dict/from_dict, MappedDFTKernel.to_dict", "ciderpress/dft/xc_evaluator2.py: MappedDFTKernel2.to_dict",
                "ciderpress/dft/model_utils.py: load_cider_model"],
     bounds=dict(parameters="symbolic reals", features="symbolic in (0, 1e9]", cycles="2 save/load cycles", feature_lists="3 maps per list (all classes over the groups); through the YAML contract: 3 and 12 maps",
